@@ -381,7 +381,7 @@ Fixpoint parse_loop (n : nat) (acc : list expr) (ts : list token) : res (list ex
             | Ok e rest =>
                 match rest with
                 | TNewline :: _ => parse_loop n (acc ++ [e]) (skip_empty_lines rest)
-                | TSemicolon :: r => parse_loop n (acc ++ [e]) r
+                | TSemicolon :: r => parse_loop n (acc ++ [e]) (skip_empty_lines r)
                 | [] => Ok (acc ++ [e]) []
                 | TEqual :: _ =>
                     (* the token before `=` decides between the two messages *)
